@@ -139,6 +139,38 @@ def ancestors(F: Facts, ev):
     return out
 
 
+def runloop_killed_by_handler(F: Facts, bus):
+    """F23 mechanism: a handler run by this bus's run loop ended with a CancelledError of its own making; the run
+    loop takes it for its own cancellation and exits silently (seq of that moment, or None)."""
+    return (runloop_kills(F, bus) or [None])[0]
+
+
+def runloop_kills(F: Facts, bus):
+    out = []
+    for seq, act in F.self_cancelled:
+        a = F.acts.get(act)
+        if a is None:
+            continue
+        chain = _chain(F, act)
+        root = F.acts.get(chain[-1])
+        if root is not None and root.bus == bus:
+            # the instant that matters is when the run-loop task actually ended
+            ends = [s for s, b in F.runloop_exits if b == bus and s > seq]
+            out.append(min(ends) if ends else seq)
+    return out
+
+
+def aborted_by_self_cancel(F: Facts, ev):
+    """F23 (inline variant): processing of ev was aborted by the CancelledError that one of its own handlers, or a
+    handler nested below it through inline processing, raised by itself."""
+    for seq, act in F.self_cancelled:
+        for a in _chain(F, act):
+            aa = F.acts.get(a)
+            if aa is not None and aa.ev == ev:
+                return True
+    return False
+
+
 def why_incomplete(F: Facts, ev, depth=0, seen=None):
     """Set of mechanisms explaining why ev never got its completion signalled."""
     seen = seen if seen is not None else set()
@@ -152,9 +184,16 @@ def why_incomplete(F: Facts, ev, depth=0, seen=None):
         causes.add('F5b')
     if evicted_in_flight(F, ev):
         causes.add('F11')
+    if aborted_by_self_cancel(F, ev):
+        causes.add('F23')
     for (b, e) in F.accepted:
         if e == ev and F.bus_stopped_before(b):
             causes.add('bus_stopped')
+        if e == ev:
+            k = runloop_killed_by_handler(F, b)
+            # the event was being processed by, or still queued on, a bus whose run loop a handler killed
+            if k is not None and not F.processed(b, ev, before=k):
+                causes.add('F23')
     for c in F.kids.get(ev, ()):
         if c not in F.sig:
             causes |= why_incomplete(F, c, depth + 1, seen)
@@ -190,6 +229,14 @@ def _hang_cause(F: Facts, v):
                 c = set()
             causes |= c or {'unexplained'}
         elif kind == 'wait_idle':
+            kills = runloop_kills(F, what)
+            if kills:
+                # only a call that was already in progress when the loop died is stuck by F23:
+                # a later call restarts the run loop and must return
+                began = [x[1] for x in F.idles if x[0] == what and x[6] == actor and x[2] is None]
+                if began and any(min(began) < k for k in kills):
+                    causes.add('F23')
+                    continue
             st = F.final.get('buses', {}).get(what, {}).get('state')
             names = st[3] if st else ()
             c = set()
@@ -286,7 +333,7 @@ def diagnose(F: Facts, v) -> str:
                     if A.bus == B.bus and A.ev == B.ev and F.bus_cfg.get(A.bus, {}).get('parallel'):
                         return 'F15'
         return 'unexplained'
-    if prop == 'C10' and cl in ('event_incomplete', 'result_left_nonterminal'):
+    if cl in ('event_incomplete', 'result_left_nonterminal'):
         ev = key[0]
         c = why_incomplete(F, ev)
         return '+'.join(sorted(c)) if c else 'unexplained'
